@@ -60,6 +60,11 @@ func Generate(r *sim.Rng, prop, tier string, idx int) *sim.Case {
 		// commands take a while to reach the server (C07's promptness bound is about a fast network)
 		c.Knobs["net_latency_ns"] = int64(sim.Pick(r, 200*time.Microsecond, 3*time.Millisecond, 40*time.Millisecond))
 	}
+	if backendKind == 1 && r.Chance(1, 3) {
+		// SCAN answered in small pages, with empty pages in between, as a real server does
+		c.Knobs["scan_page"] = int64(sim.Pick(r, 1, 2, 3, 7))
+		c.Knobs["scan_empty_pages"] = int64(sim.Pick(r, 0, 1, 2, 3))
+	}
 	if backendKind == 1 && r.Chance(1, 5) {
 		c.Knobs["redis_clock_skew_ns"] = int64(sim.Pick(r, -time.Hour, -3*time.Second, 3*time.Second, time.Hour))
 	}
